@@ -28,26 +28,25 @@ Theorem C07_dim_mismatch_is_error : forall a b e,
 Proof. exact conversion_factor_error. Qed.
 Print Assumptions C07_dim_mismatch_is_error.
 
-(* Full statement:  forall a b, conversion_factor a b = Ok (inl tt) <-> is_equivalent a b = true.
-   It is FALSE of the faithful model (and of the code): pint's "radian = []" is a base unit without
-   a dimension, so radian -> dimensionless has factor 1 while is_equivalent says False
-   (KNOWN_FINDINGS.txt: radian-not-equivalent).  Proved: the statement for units with the same radian
-   content, the direction equivalent => factor 1 for all units, and the refutation witness. *)
-Theorem C07_factor_one_iff_equivalent_partial : forall a b,
-  ueq (angle a) (angle b) ->
-  (conversion_factor a b = Ok (inl tt) <-> is_equivalent a b = true).
+(* is_equivalent is exactly "the conversion factor is 1", for all units (full statement; the radian finding -- pint's
+   "radian = []" is a base unit without a dimension, and is_equivalent used to compare base-unit expansions -- was repaired
+   in /repo: dimensionalities are compared, and the model follows). *)
+Theorem C07_factor_one_iff_equivalent : forall a b,
+  conversion_factor a b = Ok (inl tt) <-> is_equivalent a b = true.
 Proof. exact conversion_factor_one_iff. Qed.
-Print Assumptions C07_factor_one_iff_equivalent_partial.
+Print Assumptions C07_factor_one_iff_equivalent.
 
 Theorem C07_equivalent_implies_factor_one : forall a b,
   is_equivalent a b = true -> conversion_factor a b = Ok (inl tt).
 Proof. exact equivalent_implies_factor_one. Qed.
 Print Assumptions C07_equivalent_implies_factor_one.
 
-Theorem C07_factor_one_iff_equivalent_refuted :
-  exists a b, conversion_factor a b = Ok (inl tt) /\ is_equivalent a b = false.
-Proof. exact conversion_factor_one_not_equivalent_refuted. Qed.
-Print Assumptions C07_factor_one_iff_equivalent_refuted.
+(* regression of the former refutation witness: radian and dimensionless, lumen-like and candela-like vectors *)
+Theorem C07_radian_equivalent_to_dimensionless :
+  conversion_factor ((angle_gen, 1%Q) :: nil) nil = Ok (inl tt) /\ is_equivalent ((angle_gen, 1%Q) :: nil) nil = true /\
+  is_equivalent ((angle_gen, 2%Q) :: ((-7)%Z, 1%Q) :: nil) (((-7)%Z, 1%Q) :: nil) = true.
+Proof. exact radian_equivalent_to_dimensionless. Qed.
+Print Assumptions C07_radian_equivalent_to_dimensionless.
 
 Theorem C07_factor_value : forall a b c,
   conversion_factor a b = Ok (inr c) -> scaleR c = scaleR a / scaleR b /\ is_equivalent a b = false.
